@@ -94,9 +94,9 @@ def column_hook(elem, carried, extra=None):
                 return ts.conv(push_index(b, idx, carried))
             if b == carried and last == elem:
                 return ts.sym("x")
-            if isinstance(b, Op) and b.op == "randn_like" and last == elem:
+            if isinstance(b, Op) and b.op in ("randn_like", "randn") and last == elem:
                 return z
-            if isinstance(b, Op) and b.op == "rand_like" and last == elem:
+            if isinstance(b, Op) and b.op in ("rand_like", "rand") and last == elem:
                 return u
             if extra is not None:
                 return extra(ts, t, b, last)
